@@ -179,7 +179,8 @@ func (r *Run) hook(point string, a ...any) {
 		r.mu.Lock()
 		r.fin[seed.GetID()]++
 		r.mu.Unlock()
-		r.tr.Emit(map[string]any{"ev": point, "id": seed.GetID(), "st": seed.GetStatus().String(), "tree": project(seed)})
+		r.tr.Emit(map[string]any{"ev": point, "id": seed.GetID(), "st": seed.GetStatus().String(), "tree": project(seed),
+			"parsed": seed.GetURL() != nil && seed.GetURL().GetParsed() != nil})
 	case "lq.produce.recv":
 		o := a[0].(*models.Item)
 		r.tr.Emit(map[string]any{"ev": point, "id": o.GetID(), "u": o.GetURL().Raw, "via": o.GetSeedVia(), "hops": o.GetURL().GetHops()})
